@@ -149,6 +149,8 @@ def error_sites(f):
     """[(bb, variant, span)] for every construction of lexical_util::error::Error::<Variant>(..)"""
     out = []
     for i, b in enumerate(f.blocks):
+        if not f.live(i):
+            continue
         for st in b["s"]:
             if st[0] == "=" and st[2][0] == "agg" and st[2][1][0] == "adt" and st[2][1][1] == ERR:
                 out.append((i, st[2][1][3], st[3]))
